@@ -12,6 +12,71 @@ def _key(c, r):
     return "sig-mix;%s;%s" % (vp.fingerprint(P["vals"]), sorted(r["tags"])[0])
 
 
+def arg_expr(name, info, is_comp):
+    if is_comp:
+        return '<%s> = "%s"' % (name, name)
+    cnt = info.get("count", "none")
+    if cnt == "plural":
+        return "%s = 1u32" % name
+    if cnt != "none":
+        return "%s = 1%s" % (name, cnt)
+    return '%s = "V"' % name
+
+
+def run_l2(run, cases, load_events, nprojects, oracle):
+    """compile / no-compile: exactly the signature compiles for every locale, omitting a member or naming an unknown key does not"""
+    import os
+    import random
+    import probe
+    rng = random.Random(run.seed)
+    ok = [i for i, c in enumerate(cases) if c["abs"]["extra"] == "none" and load_events.get(i + 1, {}).get("load", {}).get("outcome") == "Ok"]
+    # prefer assignments whose kinds differ between locales
+    chosen = ok if len(ok) <= nprojects else rng.sample(ok, nprojects)
+    libs, metas = [], []
+    for n, i in enumerate(chosen):
+        c = cases[i]
+        key = load_events[i + 1]["load"]["units"][0]["keys"]["k"]
+        vars_ = key["vars"] if key["kind"] == "interpol" else {}
+        comps = key["comps"] if key["kind"] == "interpol" else []
+        members = [(v, False) for v in sorted(vars_)] + [(k, True) for k in sorted(comps)]
+        def call(ms):
+            args = "".join(", " + arg_expr(nm, vars_.get(nm, {}), ic) for nm, ic in ms)
+            return "\n".join("    let _ = td_string!(Locale::%s, k%s);" % (l, args) for l in c["abs"]["P"]["locs"])
+        bins = [{"name": "exact", "body": call(members), "expect": "ok", "kind": "exact", "args": [m[0] for m in members], "omitted": "none"}]
+        for nm, ic in members:
+            rest = [m for m in members if m[0] != nm]
+            bins.append({"name": "omit_" + nm, "body": call(rest), "expect": "fail", "kind": "omit", "args": [m[0] for m in rest], "omitted": nm})
+        bins.append({"name": "unknown", "body": "    let _ = td_string!(Locale::en, no_such_key);", "expect": "fail", "kind": "unknown", "args": [], "omitted": "none"})
+        libs.append({"name": "c08p%d" % n, "cfg": c["cfg"], "files": c["files"], "bins": bins})
+        metas.append(i)
+    res = probe.negative_bins(run, libs, tag="_c08")
+    trace, cases_abs = [], []
+    for n, lib in enumerate(libs):
+        r = res[lib["name"]]
+        cases_abs.append({"id": n + 1, "abs": cases[metas[n]]["abs"]})
+        if not r["lib_built"]:
+            run.violation("l2-lib;" + vp.fingerprint(cases[metas[n]]["abs"]["P"]["vals"]), "a project the parser accepts does not compile", {"log": r["log"]})
+            continue
+        for b in lib["bins"]:
+            trace.append({"ev": "Compile", "case": n + 1, "kind": b["kind"], "args": b["args"], "omitted": b["omitted"], "got": r["bins"][b["name"]]})
+    trace.append({"ev": "End"})
+    wd = os.path.join(run.workdir, "l2")
+    os.makedirs(wd, exist_ok=True)
+    tpath, cpath = os.path.join(wd, "trace.ndjson"), os.path.join(wd, "cases.ndjson")
+    vp.write_ndjson(tpath, trace)
+    vp.write_ndjson(cpath, cases_abs)
+    summary, rejects, _ = vp.trace_validate("Trace_Fk", "Trace_Fk.cfg", wd, tpath, cpath, env={"ORACLE": oracle})
+    if summary["consumed"] != summary["events"]:
+        raise vp.ToolError("trace spec consumed %s of %s events" % (summary["consumed"], summary["events"]))
+    run.traces += len(libs)
+    run.events += summary["events"]
+    for rj in rejects:
+        ev = trace[rj["l"] - 1]
+        run.violation("l2;%s;%s;%s" % (vp.fingerprint(cases_abs[ev["case"] - 1]["abs"]["P"]["vals"]), ev["kind"], ev["omitted"]),
+                      "compile outcome %s: %s" % (ev["got"], sorted(rj["tags"])), {"event": ev, "vals": cases_abs[ev["case"] - 1]["abs"]["P"]["vals"]})
+    return len(trace) - 1
+
+
 def check(run):
     cases, res = loadfam.gen_cases(run, "MC_Sig", "MC_Sig.cfg")
     if len(cases) < 100:
@@ -20,9 +85,13 @@ def check(run):
     run.samples = [{"per_locale_entry_of_k": {l: cases[7]["abs"]["P"]["vals"][l]["k"] for l in ("en", "fr", "de")}}]
     loadfam.replay_load(run, cases, "Trace_Fk", "Trace_Fk.cfg", build_features=("json", "quote"),
                         variant="json-quote", key_of=_key, trace_env={"ORACLE": oracle})
+    import os
+    evs = {e["case"]: e for e in vp.read_ndjson(os.path.join(run.workdir, "load", "trace.ndjson")) if e.get("ev") == "Load"}
+    run.notes["l2_compile_events"] = run_l2(run, cases, evs, 8 if run.tier == "quick" else 60, oracle)
     run.exhaustive = True
     run.assumptions = ["one key whose value kind is chosen independently per locale among 10 kinds (text, number-like text, variable, component+variable, u8 / i8 range, plural, plural and range reached through a foreign key that renames the count, null)",
-                       "required-argument sets are observed as InterpolationKeys of parse_locales(); that exactly this set compiles and omitting a member does not is the L2 probe check"]
+                       "L1: InterpolationKeys of parse_locales(); L2: for a seeded sample of assignments a library crate with load_locales!() and one small binary per call shape are built with "
+                       "--keep-going: the exact argument set must compile for every locale, leaving out any one member or naming an unknown key must not"]
     return run.finish("every assignment of value kinds to 3 locales (default never null); non-trivial: assignments where at least two locales differ in kind",
                       {"distinct_nontrivial": sum(1 for c in cases if len({json.dumps(c["abs"]["P"]["vals"][l]["k"], sort_keys=True)[:40] for l in ("en", "fr", "de")}) > 1)})
 
